@@ -167,7 +167,7 @@ func cmdCheck(args []string) {
 	known := map[string]KnownFinding{}
 	for _, k := range ff.Findings {
 		if k.Property == *prop && k.Status == "known" {
-			known[k.Obligation] = k
+			known[lockName(k.Obligation)] = k
 		}
 	}
 	lock := LockFile{}
@@ -175,8 +175,8 @@ func cmdCheck(args []string) {
 	locked := map[string]bool{}
 	lockedClause := map[string]bool{} // contract clauses (obligation name without the occurrence ordinal)
 	for _, n := range lock[*prop] {
-		locked[n] = true
-		lockedClause[clauseOf(n)] = true
+		locked[lockName(n)] = true
+		lockedClause[clauseOf(lockName(n))] = true
 	}
 	// a clause of a contract that was proved on the unchanged tree stays claimed wherever the
 	// current code makes it an obligation: a new return statement or call site failing it is a
@@ -187,30 +187,30 @@ func cmdCheck(args []string) {
 	// matched site by site
 	provedReq, undecidedReq := map[string]bool{}, map[string]bool{}
 	for _, n := range lock[*prop] {
-		if k := reqKeyOfName(n); k != "" {
+		if k := reqKeyOfName(lockName(n)); k != "" {
 			provedReq[k] = true
 		}
 	}
 	for _, n := range lock[*prop+"#undecided"] {
-		if k := reqKeyOfName(n); k != "" {
+		if k := reqKeyOfName(lockName(n)); k != "" {
 			undecidedReq[k] = true
 		}
 	}
 	isLocked := func(o *Obligation) bool {
-		if locked[o.Name] {
+		if locked[lockName(o.Name)] {
 			return true
 		}
 		switch o.Kind {
 		case "ensures", "invariant@entry", "invariant@back", "step", "assert", "globalinv":
-			return lockedClause[clauseOf(o.Name)]
+			return lockedClause[clauseOf(lockName(o.Name))]
 		case "requires@call":
-			k := reqKeyOfName(o.Name)
+			k := reqKeyOfName(lockName(o.Name))
 			return k != "" && provedReq[k] && !undecidedReq[k]
 		}
 		return false
 	}
 	for _, o := range all {
-		if _, isKnown := known[o.Name]; isKnown {
+		if _, isKnown := known[lockName(o.Name)]; isKnown {
 			o.NoRetry = true // expected to fail: no second, longer attempt
 		} else if !*writeLock && !o.Cover && !isLocked(o) {
 			o.NoRetry = true // never proved on the unchanged tree (reported as UNDECIDED): one short attempt
@@ -226,10 +226,10 @@ func cmdCheck(args []string) {
 		if u.Err != "" {
 			// the unit left the supported fragment or a contract no longer binds
 			name := u.Unit + "#bound"
-			seen[name] = true
+			seen[lockName(name)] = true
 			rp := filepath.Join(outDir, "replay", sanitize(name)+".txt")
 			os.WriteFile(rp, []byte("obligation: "+name+"\n\nengine: "+u.Err+"\n"), 0o644)
-			if _, isKnown := known[name]; isKnown {
+			if _, isKnown := known[lockName(name)]; isKnown {
 				knownHit = append(knownHit, name)
 				continue
 			}
@@ -239,8 +239,8 @@ func cmdCheck(args []string) {
 			continue
 		}
 		for _, o := range u.Obls {
-			seen[o.Name] = true
-			if k, isKnown := known[o.Name]; isKnown {
+			seen[lockName(o.Name)] = true
+			if k, isKnown := known[lockName(o.Name)]; isKnown {
 				if oblOK(o) {
 					fmt.Printf("STALE-FINDING: property=%s %s now discharges (%s)\n", *prop, o.Name, k.What)
 					discharged++
@@ -320,7 +320,7 @@ func cmdCheck(args []string) {
 		var names []string
 		for _, o := range all {
 			if oblOK(o) {
-				if _, isKnown := known[o.Name]; !isKnown {
+				if _, isKnown := known[lockName(o.Name)]; !isKnown {
 					names = append(names, o.Name)
 				}
 			}
@@ -330,7 +330,7 @@ func cmdCheck(args []string) {
 		var undec []string
 		for _, o := range all {
 			if !o.Cover && !oblOK(o) {
-				if _, isKnown := known[o.Name]; !isKnown {
+				if _, isKnown := known[lockName(o.Name)]; !isKnown {
 					undec = append(undec, o.Name)
 				}
 			}
@@ -364,6 +364,13 @@ func cmdCheck(args []string) {
 }
 
 var rxOrdinal = regexp.MustCompile(`#\d+$`)
+
+// rxClauseIndex: the position of a clause within its contract ("post 3: ", "loop 1 inv 2: ") is
+// part of the displayed name but not of the lock identity: inserting a clause above another one
+// must not make the latter look like a new (or a vanished) obligation.
+var rxClauseIndex = regexp.MustCompile(`(\[[^\]]*?)\b(post|pre|inv|step) \d+: `)
+
+func lockName(name string) string { return rxClauseIndex.ReplaceAllString(name, "$1$2: ") }
 
 // clauseOf strips the occurrence ordinal from an obligation name.
 func clauseOf(name string) string { return rxOrdinal.ReplaceAllString(name, "") }
